@@ -175,27 +175,42 @@ Proof.
   - cbn in H. apply andb_true_iff in H as [Hc _]. eauto.
 Qed.
 
+Lemma parse_int_neg body :
+  parse_int (45 :: body) =
+  match parse_uint body with
+  | None => None
+  | Some un => if 2 ^ 63 <? un then None else Some (- Z.of_N un)%Z
+  end.
+Proof. reflexivity. Qed.
+
+Lemma parse_int_plain c l :
+  (c =? 43) = false -> (c =? 45) = false ->
+  parse_int (c :: l) =
+  match parse_uint (c :: l) with
+  | None => None
+  | Some un => if 2 ^ 63 <=? un then None else Some (Z.of_N un)
+  end.
+Proof. intros H1 H2. unfold parse_int. rewrite H1, H2. reflexivity. Qed.
+
+Ltac split_ifs :=
+  repeat match goal with
+         | |- context [if ?b then _ else _] => destruct b eqn:?
+         end.
+
 Lemma parse_int_dec_z z :
   parse_int (dec_z z) =
   if ((- 2 ^ 63 <=? z) && (z <? 2 ^ 63))%Z then Some z else None.
 Proof.
-  unfold dec_z, parse_int. destruct (z <? 0)%Z eqn:Ez.
-  - cbn [N.eqb]. change (45 =? 43) with false. change (45 =? 45) with true. cbv iota.
-    rewrite parse_uint_dec.
-    destruct (Z.to_N (- z) <? 2 ^ 64) eqn:E1.
-    + cbn [negb andb]. destruct (2 ^ 63 <? Z.to_N (- z)) eqn:E2.
-      * destruct ((- 2 ^ 63 <=? z) && (z <? 2 ^ 63))%Z eqn:E3; [lia|reflexivity].
-      * destruct ((- 2 ^ 63 <=? z) && (z <? 2 ^ 63))%Z eqn:E3; [|lia].
-        f_equal. lia.
-    + destruct ((- 2 ^ 63 <=? z) && (z <? 2 ^ 63))%Z eqn:E3; [lia|reflexivity].
+  unfold dec_z. destruct (z <? 0)%Z eqn:Ez.
+  - rewrite parse_int_neg, parse_uint_dec.
+    change (2 ^ 64) with 18446744073709551616. change (2 ^ 63) with 9223372036854775808.
+    change (2 ^ 63)%Z with 9223372036854775808%Z.
+    split_ifs; try lia; try reflexivity. f_equal. lia.
   - destruct (dec_head_digit (Z.to_N z)) as [c [l [E Hc]]]. rewrite E.
     assert (H43 : (c =? 43) = false) by (unfold is_digit in Hc; lia).
     assert (H45 : (c =? 45) = false) by (unfold is_digit in Hc; lia).
-    rewrite H43, H45, <- E, parse_uint_dec.
-    destruct (Z.to_N z <? 2 ^ 64) eqn:E1.
-    + cbn [negb andb]. destruct (2 ^ 63 <=? Z.to_N z) eqn:E2.
-      * destruct ((- 2 ^ 63 <=? z) && (z <? 2 ^ 63))%Z eqn:E3; [lia|reflexivity].
-      * destruct ((- 2 ^ 63 <=? z) && (z <? 2 ^ 63))%Z eqn:E3; [|lia].
-        f_equal. lia.
-    + destruct ((- 2 ^ 63 <=? z) && (z <? 2 ^ 63))%Z eqn:E3; [lia|reflexivity].
+    rewrite (parse_int_plain c l H43 H45), <- E, parse_uint_dec.
+    change (2 ^ 64) with 18446744073709551616. change (2 ^ 63) with 9223372036854775808.
+    change (2 ^ 63)%Z with 9223372036854775808%Z.
+    split_ifs; try lia; try reflexivity. f_equal. lia.
 Qed.
